@@ -200,10 +200,37 @@ struct SharedVerdict {
     char classes[900];
 };
 
+// Shared text log: the child appends trace lines, the parent reads the tail after a crash.
+struct ShLog { size_t cap; volatile size_t len; char data[1]; };
+inline ShLog *&shlog_ptr() { static ShLog *p = nullptr; return p; }
+inline void shlog_init() {
+    if (shlog_ptr()) return;
+    size_t cap = 1 << 20;
+    ShLog *l = (ShLog *)mmap(nullptr, sizeof(ShLog) + cap, PROT_READ | PROT_WRITE, MAP_SHARED | MAP_ANONYMOUS, -1, 0);
+    l->cap = cap; l->len = 0; shlog_ptr() = l;
+}
+inline void shlog_append(const std::string &s) {
+    ShLog *l = shlog_ptr();
+    if (!l) return;
+    size_t n = s.size();
+    if (l->len + n + 1 >= l->cap) { // keep the tail: drop the first half
+        size_t half = l->len / 2; memmove(l->data, l->data + half, l->len - half); l->len -= half;
+        if (l->len + n + 1 >= l->cap) return;
+    }
+    memcpy(l->data + l->len, s.data(), n); l->len += n; l->data[l->len] = 0;
+}
+inline std::string shlog_tail(size_t maxbytes) {
+    ShLog *l = shlog_ptr();
+    if (!l || !l->len) return "";
+    size_t n = l->len, from = n > maxbytes ? n - maxbytes : 0;
+    return std::string(l->data + from, n - from);
+}
+
 inline Verdict run_forked(const std::string &prop, const std::function<Verdict()> &fn, int timeout_s = 20, std::string *stderr_out = nullptr) {
     static SharedVerdict *sv = nullptr;
     if (!sv) sv = (SharedVerdict *)mmap(nullptr, sizeof(SharedVerdict), PROT_READ | PROT_WRITE, MAP_SHARED | MAP_ANONYMOUS, -1, 0);
     memset(sv, 0, sizeof *sv);
+    shlog_init(); shlog_ptr()->len = 0;
     int errpipe[2];
     if (pipe(errpipe) != 0) { perror("pipe"); exit(2); }
     fflush(stdout); fflush(stderr);
@@ -244,7 +271,9 @@ inline Verdict run_forked(const std::string &prop, const std::function<Verdict()
     }
     v.ok = false; v.rule = prop + ".CRASH";
     std::ostringstream m;
-    m << "child died (status=" << status << (WIFSIGNALED(status) ? std::string(" signal ") + std::to_string(WTERMSIG(status)) : std::string("")) << ")\n" << err.substr(0, 2500);
+    m << "child died (status=" << status << (WIFSIGNALED(status) ? std::string(" signal ") + std::to_string(WTERMSIG(status)) : std::string("")) << ")\n" << err.substr(0, 1800);
+    std::string tail = shlog_tail(1000);
+    if (!tail.empty()) m << "\n--- trace tail ---\n" << tail;
     v.message = m.str();
     v.classes.push_back("crash");
     return v;
